@@ -115,3 +115,18 @@ Example C09_walk_cover_oracle_nonvacuous :
   WalkCoverOracle.min_wcover_model WalkWidth.cyE 0%N 4%N [(1, 2); (2, 1); (2, 3)]%N 3 = Some 1%nat.
 Proof. exact WalkCoverOracle.two_cycle_cover_oracle. Qed.
 Print Assumptions C09_walk_cover_oracle_nonvacuous.
+
+(* ---- audit (audit/props_C04_C06_C09_C16.md): ALL hypotheses of C09_minpathcovercycles_returns_minimum_within_caps, the solver
+   specification included, on the self-loop graph: the k-cover model is feasible exactly for k >= 1 (k = 0 cannot cover the loop edge),
+   statuses Infeasible, Optimal, ..., and the search computes Solved 1 ---- *)
+From FP Require Import WalkWidthCaps AuditExamples17.
+Example C09_walk_search_hypotheses_satisfiable :
+  (forall j, pc_k (kset loop_kpcc j) = j /\ wf_stg (pc_graph (kset loop_kpcc j)) /\ o_allow_empty (pc_opts (kset loop_kpcc j)) = false /\
+             winputs_ok (kpcc_walk (kset loop_kpcc j))) /\
+  (forall j, cover_out j = Optimal <-> exists a, sat a (encode_kpcc (kset loop_kpcc j))) /\
+  (forall j, cover_out j = Infeasible <-> ~ exists a, sat a (encode_kpcc (kset loop_kpcc j))) /\
+  (exists P, cover_admissible (kset loop_kpcc 1) P) /\
+  (forall j, (j < 1)%nat -> ~ exists P, cover_admissible (kset loop_kpcc j) P) /\ (0 <= 1 <= 3)%nat /\
+  mfdc_solve cover_out (fun _ => false) None 0 3 = Solved 1.
+Proof. exact loop_cover_search_hypotheses. Qed.
+Print Assumptions C09_walk_search_hypotheses_satisfiable.
